@@ -14,6 +14,14 @@ import (
 // the spec's engine. It is a pure function of (spec, code): no PRNG draw that is not
 // derived from fields of the spec, no clock.
 func executeSpec(spec *RunSpec, st *Stats) *Violation {
+	// Every source slice gets the same shape whatever produced it (generator, shrinker,
+	// JSON decoder): its own backing array with spare capacity, as a buffer filled by
+	// io.ReadAll or append has. A write past len(source) then hits caller-owned memory.
+	for i, d := range spec.Docs {
+		nd := make([]byte, len(d), len(d)+16)
+		copy(nd, d)
+		spec.Docs[i] = nd
+	}
 	switch spec.Engine {
 	case "wfault":
 		return execWfault(spec, st)
